@@ -153,6 +153,18 @@ def r1_best(repo, report):
         tbl[str(r.valuation.get(f"truthy:{idxname[0].upper()}"))] = v[-1] if v else None
     adp = ap[1].upper()
     ok = tbl.get("False") == f"MultipleAdapters({adp})" and tbl.get("True") == f"MultipleAdapters(self._regroup_into_indexed_adapters({adp}))"
+    # ... and what reaches that statement under the parameter's name is the parameter: not rebound, not edited
+    pname = ap[1]
+    edits = []
+    for n in ast.walk(ac_init):
+        if isinstance(n, ast.Name) and n.id == pname and isinstance(n.ctx, (ast.Store, ast.Del)):
+            edits.append(f"line {n.lineno}: {pname} is rebound")
+        if isinstance(n, ast.Call) and isinstance(n.func, ast.Attribute) and chain(n.func.value) == pname and n.func.attr in ("remove", "pop", "sort", "reverse", "clear", "insert", "append", "extend"):
+            edits.append(f"line {n.lineno}: {src(n)[:50]}")
+        if isinstance(n, (ast.Assign, ast.Delete)) and any(isinstance(t, ast.Subscript) and chain(t.value) == pname for t in n.targets):
+            edits.append(f"line {n.lineno}: {src(n)[:50]}")
+    report.ob("C09.R1", "AdapterCutter adapter list is the list it was given", not edits, facts={"edits": edits}, loc=repo.loc(ac_init), expected=f"'{pname}' is only read in AdapterCutter.__init__",
+              why=(f"{edits[0]}: adapters that were given are not searched, or in another order - an adapter given twice with different parameters (ADAPTER;e=0 and ADAPTER;e=0.2) is a different adapter" if edits else ""))
     report.ob("C09.R1", "AdapterCutter adapter list", ok, facts=tbl, expected={"index=False": "MultipleAdapters(adapters)", "index=True": "MultipleAdapters(self._regroup_into_indexed_adapters(adapters))"}, loc=repo.loc(ifs[0]))
     c4, rg = repo.need_method("AdapterCutter", "_regroup_into_indexed_adapters")
     rp = params(rg)
